@@ -58,6 +58,16 @@ func (b *gbuilder) term(e ast.Expr, fr *core.Frame) (string, bool) {
 			if v.IsField() {
 				return x.Name, true
 			}
+			// a parameter of an inlined helper bound to a plain variable/constant of the caller
+			// stands for that variable (the helper does not reassign it: checked by paramArg)
+			if arg, afr, ok := paramArg(v, fr); ok && b.depth < 6 {
+				b.depth++
+				t, ok := b.term(arg, afr)
+				b.depth--
+				if ok {
+					return t, true
+				}
+			}
 			return b.c.Role(v), true
 		}
 	case *ast.SelectorExpr:
@@ -102,7 +112,7 @@ func (b *gbuilder) term(e ast.Expr, fr *core.Frame) (string, bool) {
 	return "", false
 }
 
-func atom(name string) *formula { return &formula{kind: fAtom, name: name} }
+func atom(name string) *formula   { return &formula{kind: fAtom, name: name} }
 func fand(a, b *formula) *formula { return &formula{kind: fAnd, a: a, b: b} }
 func for_(a, b *formula) *formula { return &formula{kind: fOr, a: a, b: b} }
 
@@ -157,6 +167,12 @@ func (b *gbuilder) build(e ast.Expr, fr *core.Frame) *formula {
 				b.depth--
 				return f
 			}
+			if arg, afr, ok := paramArg(v, fr); ok && b.depth < 6 {
+				b.depth++
+				f := b.build(arg, afr)
+				b.depth--
+				return f
+			}
 			return atom("F(" + b.c.Role(v) + ")")
 		}
 	case *ast.SelectorExpr:
@@ -189,7 +205,7 @@ type gpath struct {
 	c    *Ctx
 	p    *core.Path
 	defs []map[*types.Var]localDef // defs[i] = definitions visible before event i (shared maps, copy on write)
-	lits []*r2Lit                   // lits[i] non-nil for branch events
+	lits []*r2Lit                  // lits[i] non-nil for branch events
 	// section ids: for every event the index of the innermost open KAcquire, -1 if none
 	sec []int
 }
@@ -714,4 +730,102 @@ func aliasOf(p *core.Path, at *core.Event, e ast.Expr) *types.Var {
 		}
 	}
 	return v
+}
+
+// paramArg: if v is a parameter of the inlined frame fr whose argument at the call site is a plain
+// identifier or a constant, and the callee never assigns the parameter, return that argument and
+// the caller's frame.
+func paramArg(v *types.Var, fr *core.Frame) (ast.Expr, *core.Frame, bool) {
+	// the variable may be used in a literal nested in the helper: find the frame that declares it
+	for ; fr != nil; fr = fr.Parent {
+		if fr.CS != nil || fr.Parent == nil || fr.Call == nil {
+			continue
+		}
+		if arg, afr, ok := paramArgIn(v, fr); ok {
+			return arg, afr, true
+		}
+	}
+	return nil, nil, false
+}
+
+func paramArgIn(v *types.Var, fr *core.Frame) (ast.Expr, *core.Frame, bool) {
+	ft := fr.FuncType()
+	if ft == nil {
+		return nil, nil, false
+	}
+	i := 0
+	for _, f := range ft.Params.List {
+		for _, n := range f.Names {
+			if fr.Info().Defs[n] == types.Object(v) {
+				if i >= len(fr.Call.Args) {
+					return nil, nil, false
+				}
+				if _, variadic := f.Type.(*ast.Ellipsis); variadic {
+					return nil, nil, false
+				}
+				arg := unparen(fr.Call.Args[i])
+				_, isIdent := arg.(*ast.Ident)
+				tv, hasTV := fr.Parent.Info().Types[arg]
+				if !isIdent && !(hasTV && tv.Value != nil) {
+					return nil, nil, false
+				}
+				// not reassigned in the callee
+				assigned := false
+				if body := fr.Body(); body != nil {
+					ast.Inspect(body, func(n ast.Node) bool {
+						switch a := n.(type) {
+						case *ast.AssignStmt:
+							for _, l := range a.Lhs {
+								if id, ok := unparen(l).(*ast.Ident); ok && fr.Info().Uses[id] == types.Object(v) {
+									assigned = true
+								}
+							}
+						case *ast.IncDecStmt:
+							if id, ok := unparen(a.X).(*ast.Ident); ok && fr.Info().Uses[id] == types.Object(v) {
+								assigned = true
+							}
+						}
+						return !assigned
+					})
+				}
+				if assigned {
+					return nil, nil, false
+				}
+				return arg, fr.Parent, true
+			}
+			i++
+		}
+		if len(f.Names) == 0 {
+			i++
+		}
+	}
+	return nil, nil, false
+}
+
+// varTerm / varFormula name a variable as the atoms built at an event in frame fr name it (a
+// parameter of an inlined function stands for the caller's argument).
+func (b *gbuilder) varTerm(v *types.Var, fr *core.Frame) string {
+	if v == nil {
+		return "?var"
+	}
+	if arg, afr, ok := paramArg(v, fr); ok {
+		if t, ok := b.term(arg, afr); ok {
+			return t
+		}
+	}
+	return b.c.Role(v)
+}
+
+func (b *gbuilder) varFormula(v *types.Var, fr *core.Frame) *formula {
+	if v == nil {
+		return atom("F(?var)")
+	}
+	if arg, afr, ok := paramArg(v, fr); ok {
+		return b.build(arg, afr)
+	}
+	return atom("F(" + b.c.Role(v) + ")")
+}
+
+func (g *gpath) builderAt(i int) *gbuilder {
+	return &gbuilder{c: g.c, defs: g.defs[i], sec: g.sec[i]}
 }
